@@ -41,9 +41,13 @@ def run(tier):
     jobs = []
     if tier == "quick":
         rnd.shuffle(cases)
-        for i, c in enumerate(cases[:420]):
+        scripts = [c for c in cases if c["src"] == "generated:script"][:40]
+        for i, c in enumerate([c for c in cases if c["src"] != "generated:script"][:400]):
             specs = rnd.sample(QUICK_SPECS, 7)
             jobs.append(dict(c, specs=specs, seed=common.env.seed() * 100000 + i))
+        for i, c in enumerate(scripts):
+            specs = [{"kind": "semicolons"}, [{"kind": "semicolons", "p": 0.5}, {"kind": "ws"}]] + rnd.sample(QUICK_SPECS, 3)
+            jobs.append(dict(c, specs=specs, seed=common.env.seed() * 100000 + 5000 + i))
     else:
         for i, c in enumerate(cases):
             jobs.append(dict(c, specs=QUICK_SPECS, seed=common.env.seed() * 100000 + i))
